@@ -49,6 +49,8 @@ type Task struct {
 	Kube  bool `json:"kube,omitempty"`  // BindingType is kubernetes (otherwise schedule)
 	Group int  `json:"group,omitempty"` // HookMetadata.Group (index into groups)
 	Exec  bool `json:"exec,omitempty"`  // ExecuteOnSynchronization
+	// every class (since seeded change C07-7): HookMetadata.AllowFailure, the failure policy of the task's binding
+	AF bool `json:"af,omitempty"`
 }
 
 // KB is one kubernetes binding of a hook of class "sync" (binding j of hook h is named k<100h+j>, its
@@ -56,6 +58,7 @@ type Task struct {
 type KB struct {
 	Group int  `json:"g"`
 	Exec  bool `json:"exec"` // executeHookOnSynchronization
+	AF    bool `json:"af,omitempty"` // allowFailure: true
 }
 
 // HookCfg is the config of hook h<i+1>.sh of class "sync".
@@ -124,7 +127,7 @@ func mk(t Task) task.Task {
 	if t.NoMeta {
 		return bt
 	}
-	hm := task_metadata.HookMetadata{HookName: fmt.Sprintf("hook%d.sh", t.Hook)}
+	hm := task_metadata.HookMetadata{HookName: fmt.Sprintf("hook%d.sh", t.Hook), AllowFailure: t.AF}
 	for _, c := range t.Ctxs {
 		bc := bctx.BindingContext{Binding: "c" + strconv.Itoa(c.Tag)}
 		bc.Metadata.Group = groups[c.Group%len(groups)]
@@ -240,8 +243,101 @@ func coqCtx(c Ctx) string {
 	return fmt.Sprintf("C %d %d", c.Tag, c.Group)
 }
 func coqTask(t Task) string {
-	return fmt.Sprintf("T %d %d %d %s %s %s", t.Id, t.Hook, t.Ty, core.CoqBool(!t.NoMeta),
+	s := fmt.Sprintf("T %d %d %d %s %s %s", t.Id, t.Hook, t.Ty, core.CoqBool(!t.NoMeta),
 		core.CoqList(t.Ctxs, coqCtx), core.CoqList(t.Mids, core.CoqN))
+	if t.AF {
+		return "AF (" + s + ")"
+	}
+	return s
+}
+
+// policyTags: how the failure policies (allowFailure) are spread over one backlog - the head of a queue
+// and the tasks of its hook and type immediately behind it (what is merged whatever the policies are).
+func policyTags(q []Task) []string {
+	var tags []string
+	seen := map[string]bool{}
+	add := func(s string) {
+		if !seen[s] {
+			seen[s] = true
+			tags = append(tags, s)
+		}
+	}
+	heads := map[int]bool{}
+	for i, h := range q {
+		if heads[h.Qn] {
+			continue
+		}
+		heads[h.Qn] = true
+		if h.NoMeta {
+			continue
+		}
+		strict, lenient := 0, 0
+		for _, x := range q[i+1:] {
+			if x.Qn != h.Qn {
+				continue
+			}
+			if x.NoMeta || x.Hook != h.Hook || x.Ty != h.Ty {
+				break
+			}
+			if x.AF {
+				lenient++
+			} else {
+				strict++
+			}
+		}
+		if strict+lenient == 0 {
+			continue
+		}
+		hd := "strict"
+		if h.AF {
+			hd = "lenient"
+		}
+		switch {
+		case strict > 0 && lenient > 0:
+			add("policy:head-" + hd + "+followers-mixed")
+		case lenient > 0:
+			add("policy:head-" + hd + "+followers-lenient")
+		default:
+			add("policy:head-" + hd + "+followers-strict")
+		}
+	}
+	return tags
+}
+
+// policies spreads failure policies over the tasks of one layout (q in queue order, then the tasks that
+// arrive later): all default; independent per task; the head of every queue strict and everything else
+// lenient; the other way round; one policy per hook.
+func (g *gen) policies(q, app []Task) {
+	mode := g.r.Intn(100)
+	perHook := map[int]bool{}
+	heads := map[int]bool{}
+	set := func(t *Task, head bool) {
+		switch {
+		case mode < 20:
+			t.AF = false
+		case mode < 55:
+			t.AF = g.r.Chance(50)
+		case mode < 72:
+			t.AF = !head
+		case mode < 89:
+			t.AF = head
+		default:
+			if _, ok := perHook[t.Hook]; !ok {
+				perHook[t.Hook] = g.r.Chance(50)
+			}
+			t.AF = perHook[t.Hook]
+		}
+		if t.NoMeta {
+			t.AF = false
+		}
+	}
+	for i := range q {
+		set(&q[i], !heads[q[i].Qn])
+		heads[q[i].Qn] = true
+	}
+	for i := range app {
+		set(&app[i], false)
+	}
 }
 func coqRes(r Res) string {
 	res := "None"
@@ -332,6 +428,9 @@ func Render(in Input, obs *Observation, crash string) core.Case {
 		tys[t.Ty] = true
 	}
 	c.Tags = append(c.Tags, fmt.Sprintf("hooks:%d", len(hooks)), fmt.Sprintf("types:%d", len(tys)))
+	if wf {
+		c.Tags = append(c.Tags, policyTags(in.Q)...)
+	}
 	c.Nontrivial = wf && len(in.Q) >= 2
 	return c
 }
@@ -425,6 +524,7 @@ func (g *gen) layout(maxTasks int, malformed bool) Input {
 		in.App = append(in.App, g.task(nHooks))
 	}
 	in.Q[0].NoMeta = false
+	g.policies(in.Q, in.App)
 	in.T = in.Q[0]
 	if g.r.Chance(12) {
 		for k := 0; k <= g.r.Intn(2); k++ {
@@ -437,6 +537,7 @@ func (g *gen) layout(maxTasks int, malformed bool) Input {
 			in.T = in.Q[g.r.Intn(len(in.Q))]
 		case 1: // the executed task is not in the queue at all
 			in.T = g.task(nHooks)
+			in.T.AF = !in.T.NoMeta && g.r.Chance(40)
 		case 2: // two tasks with one id
 			if len(in.Q) >= 2 {
 				i := g.r.Intn(len(in.Q) - 1)
@@ -446,6 +547,7 @@ func (g *gen) layout(maxTasks int, malformed bool) Input {
 			}
 		case 3: // the executed task has no metadata
 			in.Q[0].NoMeta = true
+			in.Q[0].AF = false
 			in.T = in.Q[0]
 		}
 	}
@@ -501,6 +603,11 @@ func Corpus() []Input {
 	add(nil, []Task{ht(3, 1, 0, ctxs(30, 1), 300)}, ht(1, 1, 0, ctxs(10, 1), 100), ht(2, 1, 0, ctxs(20, 1), 200))
 	// tasks with no contexts and no monitor ids
 	add(nil, nil, ht(1, 1, 0, ctxs(10)), ht(2, 1, 0, ctxs(20)), ht(3, 1, 0, ctxs(30, 2)))
+	// failure policies (seeded change C07-7): strict, lenient, strict of one hook - one block, the grouped
+	// contexts compacted over the policy boundaries; and a lenient head followed by strict tasks
+	lt := func(t Task) Task { t.AF = true; return t }
+	add(nil, nil, ht(1, 1, 0, ctxs(10, 1)), lt(ht(2, 1, 0, ctxs(20, 1), 200)), ht(3, 1, 0, ctxs(30, 1)), ht(4, 2, 0, ctxs(40, 0)))
+	add(nil, []Task{lt(ht(5, 1, 0, ctxs(50, 0)))}, lt(ht(1, 1, 0, ctxs(10, 0))), ht(2, 1, 0, ctxs(20, 2)), ht(3, 1, 0, ctxs(30, 2)), lt(ht(4, 1, 1, ctxs(40, 0))))
 	return ins
 }
 
@@ -522,8 +629,12 @@ func exhaustive(maxLen int) []Input {
 	var rec func(q []Task)
 	rec = func(q []Task) {
 		in := Input{Stop: []int{}, App: []Task{}}
+		// failure policies, by the layout's number: all strict / odd positions lenient / only the head lenient /
+		// everything but the head lenient
+		pat := len(out) % 4
 		for pos, t := range q {
 			n := Task{Id: pos + 1, Hook: t.Hook, Ty: t.Ty, NoMeta: t.NoMeta, Ctxs: []Ctx{}, Mids: []int{}}
+			n.AF = !t.NoMeta && ((pat == 1 && pos%2 == 1) || (pat == 2 && pos == 0) || (pat == 3 && pos > 0))
 			for j, c := range t.Ctxs {
 				n.Ctxs = append(n.Ctxs, Ctx{Tag: (pos+1)*10 + j, Group: c.Group})
 			}
@@ -639,6 +750,9 @@ var Driver = core.Driver[Input, Observation]{
 			"exhaustive-set (thorough/search: queues main and qa with every pair of sequences of <=2 tasks over 2 hooks x {no group, group a}, executed task = either head or a queue-less task named \"\", no-such-queue, main, qa); " +
 			"class op: sessions of 1-4 steps on the real operator (task handler, admission event handler of initValidatingWebhookManager, conversionEventHandler, real bash hooks): 1-4 named queues with 2-8 tasks (HookRun with schedule contexts, 15% EnableScheduleBindings, 6% carrying a foreign or empty name), " +
 			"steps head-of-queue (harness plays the worker: GetFirst, Handler, Remove on Success) / validating / mutating / conversion request / queue-less task with name \"\" or unknown handed to taskHandler, 25% of the hook runs exit 1; " +
+			"failure policies (since seeded change C07-7; every class): each task carries the allowFailure of its binding - per layout all default (20%), independent per task (35%), the head of every queue strict and all other tasks lenient (17%), " +
+			"the other way round (17%), one policy per hook (11%); class op: the value is read from the loaded config of the hook's real schedule binding s-<queue> / l-<queue> (allowFailure: true); class sync: the kubernetes bindings declare allowFailure (40%), " +
+			"their real Synchronization tasks carry it, events / ticks carry the policy of one of the hook's bindings; a failed run of a head that allows failure after the merge is a Success (tag failed-run-forgiven); exhaustive: four policy patterns by layout number; " +
 			"non-trivial = well-formed (unique ids) with >=2 queued tasks (class op: and >=1 step); distinct = distinct input text"},
 	Gen: Gen, Run: Run, Render: Render, PerShard: 150, Workers: 8, CaseTimout: 20 * time.Second,
 	Extra: func() map[string]any {
